@@ -8,6 +8,23 @@ VERIF = os.path.dirname(os.path.dirname(os.path.abspath(__file__)))
 
 # property -> (technique, clause decided, trusted base / what is not decided, DESIGN ref)
 CLAIMS = {
+    "C38": ("AST rule over every instantiation of the diff_utils templates reachable (call graph) from compute_diff",
+            "inside the Myers implementation no == / != is applied to a sequence element; all element comparisons "
+            "are calls of the caller's equality functor; the raw-== helpers stay unreachable from compute_diff",
+            "correctness and minimality of the edit script",
+            "§3 R-EQFUNCTOR; §4 C38"),
+    "C40": ("def-use analysis of the HASH_TYPE_ID_STYLE arm of write_context::get_id_for_type",
+            "a hash-style id is the formatted fnv_hash of the type's internal pretty representation, only "
+            "incremented while probing a per-writer member set; no counter, address or static state flows into it",
+            "ids of colliding types depend on emission order (the property's own proviso)",
+            "§3 R-HASHID; §4 C40"),
+    "C42": ("compile-fail witnesses (type-level encoding: private constructor + friend) and AST shape obligations on "
+            "interned_string / interned_string_pool",
+            "only interned_string_pool can mint a representative, create_string reuses the existing one "
+            "(lookup-then-insert on one content-keyed map, empty string = null representative), identity comparison "
+            "and hashing use the representative's address",
+            "orderings of string multisets are std::string behaviour; strings of different pools are out of scope",
+            "§3 R-INTERN; §4 C42"),
     "C34": ("non-null dataflow over libelf accessor results, buffer-pointer derivation from Elf_Data::d_buf with a "
             "dominating-size-test rule, guarded-division rule for sh_entsize, assertion classification",
             "in the ELF symbol readers (hash-table lookups, symtab loader, version and dynamic-section readers): "
